@@ -378,20 +378,24 @@ Definition astimezone_naive (w : Z) : dres (Z * Z) :=
 Definition iso_format (w : Z) : dres str :=
   dbind (astimezone_naive w) (fun lo => DOk (datetime_text (fields (fst lo)) (snd lo))).
 
+(* datetime.fromisoformat(text).astimezone().replace(tzinfo=None) truncated to ms, for the fields and offset read from
+   the text; None = the ValueError/OverflowError that value_parse_datetime catches *)
+Definition fromiso_to_local (f : dtf) (o : Z) : option Z :=
+  if valid_fields f && (Z.abs o <? 86400) then           (* fromisoformat's ValueError cases *)
+    let u := of_fields f - o * US_SEC in                  (* aware.astimezone(): to UTC ... *)
+    if in_range u then
+      let l := u + off_utc u * US_SEC in                  (* ... and to the local zone *)
+      if in_range l then Some (trunc_ms l) else None
+    else None
+  else None.
+
 (* value_parse_datetime *)
 Definition iso_parse (s : str) : option Z :=
   match parse_date_form s with
   | Some (y, m, d) => dres_opt (py_datetime (mkf y m d 0 0 0 0))
   | None =>
     match parse_datetime_form s with
-    | Some (f, o) =>
-      if valid_fields f && (Z.abs o <? 86400) then           (* fromisoformat's ValueError cases *)
-        let u := of_fields f - o * US_SEC in                  (* aware.astimezone(): to UTC ... *)
-        if in_range u then
-          let l := u + off_utc u * US_SEC in                  (* ... and to the local zone *)
-          if in_range l then Some (trunc_ms l) else None
-        else None
-      else None
+    | Some (f, o) => fromiso_to_local f o
     | None => None
     end
   end.
